@@ -76,6 +76,9 @@ impl Decoder for ServerCodec {
                     bail!("not trojan protocol");
                 }
                 let key = src.split_to(56);
+                if !key.is_ascii() {
+                    bail!("not a valid password")
+                }
                 let key = hex::decode(unsafe { str::from_utf8_unchecked(&key) })?;
                 if self.key != key[..self.key.len()] {
                     bail!("not a valid password")
